@@ -248,6 +248,35 @@ pub fn check_case(inv: &Inverse, v: &Value) -> Value {
         }
         variants.push(("churn".into(), st));
     }
+    {
+        // re-parenting churn: every edge is first created leaving another node of its instance and then
+        // upserted to its final source, so the store has been through an edge migration
+        let mut st = absgraph::build_state(&StateJ { edge: Vec::new(), ..case.s.clone() });
+        let mut ok = true;
+        for e in &case.s.edge {
+            let other = case.s.node.iter().filter(|n| n.w == e.w && n.n != e.from).map(|n| n.n.clone()).next();
+            let w = ids::warp(&e.w);
+            let mut ops = Vec::new();
+            if let Some(o) = other {
+                ops.push(WarpOp::UpsertEdge { warp_id: w, record: EdgeRecord { id: ids::edge(&e.e), from: ids::node(&o), to: ids::node(&e.to), ty: ids::ty(&e.ty) } });
+            }
+            ops.push(WarpOp::UpsertEdge { warp_id: w, record: EdgeRecord { id: ids::edge(&e.e), from: ids::node(&e.from), to: ids::node(&e.to), ty: ids::ty(&e.ty) } });
+            if let Some(v) = absgraph::att_to_real(&e.att) {
+                ops.push(WarpOp::SetAttachment { key: AttachmentKey::edge_beta(absgraph::ekey(&e.w, &e.e)), value: Some(v) });
+            }
+            for op in ops {
+                // one op at a time, without the end-of-batch portal validation getting in the way of interim states
+                if let Err(err) = warp_core::verif::apply_ops(&mut st, std::slice::from_ref(&op)) {
+                    if !matches!(err, warp_core::TickPatchError::PortalInvariantViolation) {
+                        ok = false;
+                    }
+                }
+            }
+        }
+        if ok {
+            variants.push(("reparent_churn".into(), st));
+        }
+    }
     let mut first: Option<(Vec<String>, Vec<String>)> = None;
     for (name, st) in &variants {
         match absgraph::project_state(inv, st) {
